@@ -94,6 +94,24 @@ impl Property for C09 {
                 step(&mut sc, When::After { step: b, delay: 0 }, Op::Closest { node: 0, target });
             }
         }
+        // hook-free cross-check of the dumps: 161 find_node probes (local id and every single-bit
+        // flip) at one instant must together name exactly the live nodes of the dump
+        if rng.chance(1, 3) {
+            let t = rng.range(3_000, horizon);
+            let from = if v6 { probe6 } else { probe4 };
+            let a = step(&mut sc, When::At(t), Op::Closest { node: 0, target: own });
+            let first = sc.steps.len();
+            let mut last = a;
+            for bit in 0..161usize {
+                let target = if bit == 160 { own } else { krpc::flip_bit(&own, bit) };
+                last = step(&mut sc, When::After { step: a, delay: 0 }, Op::Probe { from, to: node, msg: ProbeMsg::Bytes(find_node(&tids.next(), &pid, &target, None)), timeout_ms: 2_000 });
+            }
+            // wait for all of them: the last step was issued last, but completion order may differ
+            let end = step(&mut sc, When::After { step: last, delay: 2_100 }, Op::Closest { node: 0, target: own });
+            sc.params.insert("x_first".into(), first as i64);
+            sc.params.insert("x_dump_a".into(), a as i64);
+            sc.params.insert("x_dump_b".into(), end as i64);
+        }
         sc.end_ms = horizon + 30_000;
         sc
     }
@@ -228,6 +246,33 @@ impl Property for C09 {
                 v.hit("target_is_local_id");
             }
         }
+        // hook-free cross-check
+        if sc.params.contains_key("x_first") {
+            let first = sc.param("x_first") as usize;
+            if let (Some(a), Some(b)) = (closest.get(&(sc.param("x_dump_a") as usize)), closest.get(&(sc.param("x_dump_b") as usize))) {
+                if live_set(a.1) == live_set(b.1) {
+                    let live: BTreeSet<Handle> = live_set(a.1).keys().copied().collect();
+                    let mut union: BTreeSet<Handle> = BTreeSet::new();
+                    let mut got = 0;
+                    for st in first..first + 161 {
+                        if let Some((rb, _)) = reply.get(&st) {
+                            got += 1;
+                            if let Some(l) = Msg::parse(rb).and_then(|m| m.resp().and_then(|r| r.get(if v6 { "nodes6" } else { "nodes" }).and_then(|x| x.as_bytes()).and_then(|x| parse_compact_nodes(x, v6)))) {
+                                union.extend(l);
+                            }
+                        }
+                    }
+                    if got == 161 {
+                        v.hit("dump_cross_checked_by_161_probes");
+                        if union != live {
+                            let miss: Vec<String> = live.difference(&union).take(3).map(|h| hex(&h.0)).collect();
+                            let extra: Vec<String> = union.difference(&live).take(3).map(|h| hex(&h.0)).collect();
+                            v.violate("C09", "probe_dump_disagrees_with_table", a.2, format!("161 find_node probes name {} nodes, the table dump has {} live nodes; only in table: {miss:?}, only in replies: {extra:?}", union.len(), live.len()));
+                        }
+                    }
+                }
+            }
+        }
         if max_buckets >= 20 {
             v.hit("twenty_or_more_buckets");
         }
@@ -245,12 +290,12 @@ impl Property for C09 {
         v
     }
     fn rule(&self) -> &'static str {
-        "one real serving node whose table is grown by traffic and time: bootstrap against 3..300 stubs placed by shared-prefix depth (up to 158 bits, forcing 1..159 buckets), some silent from the start or from a drawn time (entries turn questionable and bad), up to 45 virtual minutes; at 2..8 instants, 3..14 targets each (local id, local id with one bit flipped, random, ids of members): full enumeration through closest_nodes (hook H2) with a table dump, then a find_node/get_peers probe with a drawn want list, then enumeration + dump again; a reply is judged when the two dumps agree. non-trivial = at least one reply judged; distinct = distinct order digests"
+        "one real serving node whose table is grown by traffic and time: bootstrap against 3..300 stubs placed by shared-prefix depth (up to 158 bits, forcing 1..159 buckets), some silent from the start or from a drawn time (entries turn questionable and bad), up to 45 virtual minutes; in one run of three additionally 161 find_node probes (local id and every single-bit flip) at one instant whose union must equal the dump's live set (hook-free cross-check); at 2..8 instants, 3..14 targets each (local id, local id with one bit flipped, random, ids of members): full enumeration through closest_nodes (hook H2) with a table dump, then a find_node/get_peers probe with a drawn want list, then enumeration + dump again; a reply is judged when the two dumps agree. non-trivial = at least one reply judged; distinct = distinct order digests"
     }
     fn assumptions(&self) -> Vec<&'static str> {
         vec!["table dumps come from hook H2/H3 at the same virtual instant as the probe (replies whose surrounding dumps differ are skipped and counted)"]
     }
     fn required_reach(&self) -> Vec<&'static str> {
-        vec!["more_than_8_live_nodes", "target_is_local_id", "twenty_or_more_buckets", "hundred_or_more_buckets", "table_with_bad_entries", "table_with_questionable_entries", "other_family_wanted_only"]
+        vec!["more_than_8_live_nodes", "target_is_local_id", "twenty_or_more_buckets", "hundred_or_more_buckets", "table_with_bad_entries", "table_with_questionable_entries", "other_family_wanted_only", "dump_cross_checked_by_161_probes"]
     }
 }
